@@ -28,6 +28,7 @@ RenderNode(nd) ==
     [] nd.n = "res"   -> "%context.id"
     [] nd.n = "bogus" -> "Patient.name.count().foo"
     [] nd.n = "pause" -> "pause()"
+    [] nd.n = "opaque" -> "opaque" \o ToString(nd.k)      \* never rendered: the text of such a program is given
 
 RECURSIVE RenderArgs(_, _)
 RenderArgs(prog, i) ==
@@ -179,6 +180,91 @@ EvalDiff(out, den, opts, t0, t1) ==
               IN "item-" \o den.items[i].t
   ELSE IF HasOverride(opts) THEN "override-instant"
   ELSE "free-instant"
+
+----------------------------------------------------------------------------
+(* Function coverage of the stress test.  For EVERY function of the          *)
+(* implementation's tables (names and arities are read from the              *)
+(* implementation through funcs.Clone(), see C04_Menu) there is one          *)
+(* uninterpreted program with a well-typed receiver and well-typed arguments *)
+(* that are FRESH per evaluation: they are computed from %x, and every       *)
+(* goroutine passes a value of %x no other evaluation of the process has     *)
+(* used (strings, patterns, counts, numbers all differ from call to call).   *)
+(* These programs are never evaluated before the goroutines start, so state  *)
+(* a function keeps per argument value (a cache of compiled patterns, of     *)
+(* parsed literals, ...) is first written DURING the concurrent phase.  A    *)
+(* name without an entry gets the generic form  receiver.name(%x, ...).      *)
+GV == "Patient.name.given"
+SX == "('v' & %x.toString())"
+FnCover ==
+  [empty |-> GV \o ".take(%x mod 3).empty()",
+   exists |-> GV \o ".exists($this.length() > (%x mod 5))",
+   extension |-> "Patient.extension('http://example.org/' & %x.toString())",
+   all |-> GV \o ".all($this.length() > (%x mod 5))",
+   allTrue |-> GV \o ".select($this.length() > (%x mod 5)).allTrue()",
+   anyTrue |-> GV \o ".select($this.length() > (%x mod 5)).anyTrue()",
+   allFalse |-> GV \o ".select($this.length() > (%x mod 5)).allFalse()",
+   anyFalse |-> GV \o ".select($this.length() > (%x mod 5)).anyFalse()",
+   count |-> GV \o ".take(%x mod 3).count()",
+   distinct |-> GV \o ".select($this.substring(0, 1 + (%x mod 2))).distinct()",
+   isDistinct |-> GV \o ".select($this.substring(0, 1 + (%x mod 2))).isDistinct()",
+   where |-> GV \o ".where($this.length() > (%x mod 5))",
+   select |-> GV \o ".select($this & %x.toString())",
+   first |-> GV \o ".select($this & %x.toString()).first()",
+   last |-> GV \o ".select($this & %x.toString()).last()",
+   tail |-> GV \o ".select($this & %x.toString()).tail()",
+   skip |-> GV \o ".skip(%x mod 3)",
+   take |-> GV \o ".take(%x mod 3)",
+   intersect |-> "%x.toString().toChars().intersect((%x mod 10).toString().toChars())",
+   exclude |-> "%x.toString().toChars().exclude((%x mod 10).toString().toChars())",
+   iif |-> "iif(%x mod 2 = 0, %x, " \o GV \o ".first())",
+   toBoolean |-> "(%x mod 2).toString().toBoolean()",
+   convertsToBoolean |-> "(%x mod 3).toString().convertsToBoolean()",
+   toInteger |-> "%x.toString().toInteger()",
+   convertsToInteger |-> SX \o ".convertsToInteger()",
+   toDate |-> "('20' & (10 + (%x mod 80)).toString() & '-01-01').toDate()",
+   convertsToDate |-> "('20' & (10 + (%x mod 80)).toString() & '-01-01').convertsToDate()",
+   toDateTime |-> "('20' & (10 + (%x mod 80)).toString() & '-01-01T10:00:00Z').toDateTime()",
+   convertsToDateTime |-> "('20' & (10 + (%x mod 80)).toString() & '-01-01T10:00:00Z').convertsToDateTime()",
+   toDecimal |-> "(%x.toString() & '.5').toDecimal()",
+   convertsToDecimal |-> "(%x.toString() & '.5').convertsToDecimal()",
+   toQuantity |-> "%x.toString().toQuantity()",
+   convertsToQuantity |-> "%x.toString().convertsToQuantity()",
+   toString |-> "(%x / 8).toString()",
+   convertsToString |-> SX \o ".convertsToString()",
+   toTime |-> "('10:' & (10 + (%x mod 50)).toString() & ':00').toTime()",
+   convertsToTime |-> "('10:' & (10 + (%x mod 50)).toString() & ':00').convertsToTime()",
+   indexOf |-> SX \o ".indexOf((%x mod 10).toString())",
+   substring |-> SX \o ".substring(1, 1 + (%x mod 3))",
+   startsWith |-> SX \o ".startsWith('v' & (%x mod 10).toString())",
+   endsWith |-> SX \o ".endsWith((%x mod 10).toString())",
+   contains |-> SX \o ".contains((%x mod 10).toString())",
+   upper |-> SX \o ".upper()",
+   lower |-> SX \o ".lower()",
+   replace |-> SX \o ".replace('v', %x.toString())",
+   matches |-> "'abc-123'.matches('^abc-' & %x.toString() & '?')",
+   replaceMatches |-> SX \o ".replaceMatches('v' & %x.toString() & '?', 'X')",
+   length |-> SX \o ".length()",
+   toChars |-> SX \o ".toChars()",
+   abs |-> "(0 - %x).abs()",
+   ceiling |-> "(%x / 7).ceiling()",
+   exp |-> "((%x mod 5) / 2).exp()",
+   floor |-> "(%x / 7).floor()",
+   ln |-> "%x.ln()",
+   log |-> "%x.log(2)",
+   power |-> "(%x mod 7).power(2)",
+   round |-> "(%x / 7).round(2)",
+   sqrt |-> "%x.sqrt()",
+   truncate |-> "(%x / 7).truncate()",
+   children |-> "Patient.name.children().count() + %x",
+   descendants |-> "Patient.name.descendants().count() + %x",
+   now |-> "now().exists() and %x > 0",
+   today |-> "today().exists() and %x > 0",
+   timeOfDay |-> "timeOfDay().exists() and %x > 0",
+   not |-> "(%x mod 2 = 0).not()",
+   join |-> GV \o ".join(%x.toString())"]
+RECURSIVE XArgs(_)
+XArgs(n) == IF n = 0 THEN "" ELSE "%x" \o (IF n > 1 THEN ", " ELSE "") \o XArgs(n - 1)
+FnCoverText(name, min) == IF name \in DOMAIN FnCover THEN FnCover[name] ELSE GV \o "." \o name \o "(" \o XArgs(min) \o ")"
 
 ----------------------------------------------------------------------------
 (* short codes of Compile calls, used in case ids and signatures *)
